@@ -183,6 +183,7 @@ package fstxn
 //@   ensures [R2-state] (result && wait ==> lastst == 1) && (result && !wait ==> lastst == 2) && (!result ==> lastst == 4) @C01 @C07
 //@   ensures [L2-released] noLocks() @C03 @C06
 //@   ensures [S1-clean] dirtyInv() @C10
+//@   ensures [A3-refused-gives-back] !result ==> (forall k uint64 :: k < len(op.Atxn.allocBnums) ==> !abits[theBalloc][op.Atxn.allocBnums[k]]) && (forall k uint64 :: k < len(op.Atxn.allocInums) ==> !abits[theIalloc][op.Atxn.allocInums[k]]) @C05 @C09
 
 //@ spec (*FsTxn).Commit
 //@   props C01 C03 C07 C09 C10
